@@ -1175,6 +1175,7 @@ fn families(ctx: &Ctx, sink: Sink) {
                 }
             };
             family_content(thorough, &o, &mut sub);
+            sink(scenario_item("foreach-sources@ecmascript", ""));
             // non-strict sub-family: a failing leaf in one block, and in every LATER block a script that is only
             // legal in non-strict mode (creates an implicit global): an error must not change how later blocks run
             for (ln, l) in c08_leaves() {
@@ -1209,6 +1210,7 @@ fn families(ctx: &Ctx, sink: Sink) {
                 ..Opts::default()
             };
             family_content(thorough, &o, sink);
+            sink(scenario_item("foreach-sources", ""));
         }
         _ => panic!("e1: unknown property {}", ctx.prop),
     }
@@ -1243,6 +1245,119 @@ fn opt_show(o: &Option<String>, dm: &str) -> String {
 
 /// C09: _event exposes the fields of the event being processed, unchanged (reference-free oracle:
 /// the values read through _event are compared with the event object the interpreter received).
+/// C08: <foreach> over collections that live in different places (a declared variable, a literal, a member of
+/// a variable, the data of the current event, an element of a nested array), with and without index, with a body
+/// that assigns to a declared variable: every item is visited once, in order, item and index bound.
+fn scenario_foreach_sources(ctx: &Ctx, out: &mut WorkerOut, index: usize, dm: &str) {
+    let sources: Vec<(&str, &str)> = vec![
+        ("var", "arr"),
+        ("literal", "[7, 8, 9]"),
+        ("member", "box.xs"),
+        ("event-data", "_event.data.xs"),
+        ("nested", "grid[1]"),
+    ];
+    let mut trans = String::new();
+    for (n, src) in &sources {
+        trans.push_str(&format!(
+            "<transition event=\"go.{n}\"><foreach array=\"{src}\" item=\"it\" index=\"ix\"><log expr=\"mark('it','{n}',it,ix)\"/><assign location=\"sum\" expr=\"sum + it\"/></foreach><log expr=\"mark('sum','{n}',sum)\"/></transition>\n",
+            n = n,
+            src = src
+        ));
+        trans.push_str(&format!(
+            "<transition event=\"gn.{n}\"><foreach array=\"{src}\" item=\"jt\"><log expr=\"mark('jt','{n}',jt)\"/></foreach></transition>\n",
+            n = n,
+            src = src
+        ));
+    }
+    let (arr, boxv, grid) = if dm == "ecmascript" {
+        ("[7, 8, 9]", "({xs: [7, 8, 9]})", "[[1], [7, 8, 9]]")
+    } else {
+        ("[7, 8, 9]", "{'xs': [7, 8, 9]}", "[[1], [7, 8, 9]]")
+    };
+    let xml = format!(
+        r##"<scxml {ns} datamodel="{dm}" name="fes">
+<datamodel><data id="arr" expr="{arr}"/><data id="box" expr="{boxv}"/><data id="grid" expr="{grid}"/><data id="sum" expr="0"/><data id="it" expr="0"/><data id="ix" expr="0"/><data id="jt" expr="0"/></datamodel>
+<state id="s">
+{trans}<transition event="error"><log expr="mark('error', _event.name)"/></transition>
+</state></scxml>"##,
+        ns = XMLNS,
+        dm = dm,
+        arr = arr,
+        boxv = boxv,
+        grid = grid,
+        trans = trans
+    );
+    let replay = json!({"engine":"e1","index": index, "xml": xml});
+    let mut run = match Run::start(&xml, std::time::Duration::from_secs(20)) {
+        Ok(r) => r,
+        Err(e) => {
+            out.violation(ctx, "scenario-start", "scenario-start", &format!("{:?}", e), replay);
+            return;
+        }
+    };
+    out.add("runs", 1);
+    let mut idle = 1;
+    let mut ok = run.wait_idle(idle) == Wait::Idle;
+    let xs = Data::Array(vec![
+        rufsm::datamodel::create_data_arc(Data::Integer(7)),
+        rufsm::datamodel::create_data_arc(Data::Integer(8)),
+        rufsm::datamodel::create_data_arc(Data::Integer(9)),
+    ]);
+    let mut expected: Vec<Vec<String>> = vec![];
+    let mut total = 0i64;
+    for prefix in ["go", "gn"] {
+        for (n, _) in &sources {
+            if !ok {
+                break;
+            }
+            run.send(ev_with(&format!("{}.{}", prefix, n), Some(vec![("xs", xs.clone())]), None, None, None, None));
+            idle += 1;
+            ok = run.wait_idle(idle) == Wait::Idle;
+            out.add("edges", 1);
+            for (k, v) in [7i64, 8, 9].iter().enumerate() {
+                if prefix == "go" {
+                    expected.push(vec!["it".into(), n.to_string(), v.to_string(), k.to_string()]);
+                    total += v;
+                } else {
+                    expected.push(vec!["jt".into(), n.to_string(), v.to_string()]);
+                }
+            }
+            if prefix == "go" {
+                expected.push(vec!["sum".into(), n.to_string(), total.to_string()]);
+            }
+        }
+    }
+    if !ok {
+        out.violation(ctx, "session-stops-responding", "foreach-sources:no-idle", &format!("{:?}", take_panics()), replay.clone());
+        run.finish();
+        return;
+    }
+    let got: Vec<Vec<String>> = run
+        .log
+        .snapshot()
+        .iter()
+        .filter_map(|(_, r)| match r {
+            Rec::Mark { args, .. } => Some(args.clone()),
+            _ => None,
+        })
+        .collect();
+    out.add("ref_comparisons", expected.len() as u64);
+    if got != expected {
+        let first = expected.iter().zip(got.iter()).position(|(a, b)| a != b).unwrap_or(expected.len().min(got.len()));
+        let which = expected.get(first).map(|e| e.get(1).cloned().unwrap_or_default()).unwrap_or_default();
+        out.violation(
+            ctx,
+            "foreach-binding",
+            &format!("foreach-binding:{}:{}", dm, which),
+            &format!("<foreach> over collection '{}' ({}): records differ at #{}: expected {:?}, real {:?}", which, dm, first, expected.get(first), got.get(first)),
+            replay.clone(),
+        );
+    } else {
+        out.outcomes.insert(format!("foreach-sources|{}", dm));
+    }
+    run.finish();
+}
+
 fn scenario_event_fields(ctx: &Ctx, out: &mut WorkerOut, index: usize, dm: &str) {
     let fields = ["name", "type", "sendid", "origin", "origintype", "invokeid"];
     let mut marks = String::new();
@@ -1853,6 +1968,8 @@ fn run_scenario(ctx: &Ctx, out: &mut WorkerOut, index: usize, name: &str, _label
         return;
     }
     match name {
+        "foreach-sources" => scenario_foreach_sources(ctx, out, index, "rfsm-expression"),
+        "foreach-sources@ecmascript" => scenario_foreach_sources(ctx, out, index, "ecmascript"),
         "event-fields" => scenario_event_fields(ctx, out, index, "rfsm-expression"),
         "readonly" => scenario_readonly(ctx, out, index, "rfsm-expression"),
         "event-fields@ecmascript" => scenario_event_fields(ctx, out, index, "ecmascript"),
